@@ -3,18 +3,28 @@
    `c` ranges over every valid configuration: adapter (callback_await, make_promise, discard, future_conv,
    call_fn_future_awaiter) x outcome (value v / exception e / dropped promise, any v e) x timing (future constructed
    ready, resolved inside the init function before the registration, resolved by a second thread, resolved later by
-   the registering thread) x helper storage (heap / storage) x converter (returns src + d / throws, any d);
-   `reachable c s` ranges over every schedule of the registering thread and the resolver thread (every interleaving
+   the registering thread) x helper storage (heap / counting storage / reusable_storage / one of two trailer-tagged
+   storages / reusable_storage_mtsafe) x converter (returns src + d / throws / resolves with an exception / declines / forwards the promise to another thread, any d)
+   x optional competing resolver
+   on a third thread (value / exception / p(drop));
+   `reachable c s` ranges over every schedule of the registering thread and the resolver threads (every interleaving
    at hook-point granularity: resolution before, during and after the registration);
-   `terminal s` = no thread can take a step. *)
-From Cocls Require Import Base BaseProofs AdaptersDefs AdaptersProofs.
+   `terminal s` = no thread can take a step.  `wout c s` is the outcome of the claim that succeeded. *)
+From Cocls Require Import Base BaseProofs AdaptersDefs AdaptersInv AdaptersProofs AdaptersOracle.
 Local Open Scope nat_scope.
 
-(* no schedule strands a registration or a resolver: when nothing can move, both threads ran to completion *)
+(* no schedule strands a registration or a resolver: when nothing can move, all threads ran to completion *)
 Theorem c18_no_lost_completion : forall c s,
-  valid c = true -> reachable c s -> terminal s -> th0 s = [] /\ th1 s = [].
+  valid c = true -> reachable c s -> terminal s -> th0 s = [] /\ th1 s = [] /\ th2 s = [].
 Proof. exact terminal_done. Qed.
 Print Assumptions c18_no_lost_completion.
+
+(* no livelock: every schedule of every valid configuration reaches a terminal state within 90 steps, so the
+   `terminal` hypotheses below are met by every complete run *)
+Theorem c18_every_schedule_terminates : forall c sched fuel,
+  valid c = true -> 90 <= fuel -> terminal (fst (run_sched c fuel (init c) sched [])).
+Proof. exact every_schedule_terminates. Qed.
+Print Assumptions c18_every_schedule_terminates.
 
 (* the user callback is never entered twice, in any reachable state ... *)
 Theorem c18_fires_at_most_once : forall c s, valid c = true -> reachable c s -> ncb s <= 1.
@@ -28,13 +38,24 @@ Theorem c18_fires_once : forall c s,
 Proof. exact fires_exactly_once. Qed.
 Print Assumptions c18_fires_once.
 
-(* every callback invocation sees exactly the resolver's value / exception / no-value, and at that moment the helper
-   block is allocated and not yet released *)
+(* every callback invocation sees exactly what the source future holds = the outcome of the claim that succeeded,
+   and at that moment the helper block is allocated and not yet released *)
 Theorem c18_right_outcome : forall c s t o al fr,
   valid c = true -> reachable c s -> In (t, ECb o al fr) (log s) ->
-  o = out_of (c_k c) /\ al = hb c /\ fr = 0.
+  o = payload s /\ o = wout c s /\ al = hb c /\ fr = 0.
 Proof. exact right_outcome. Qed.
 Print Assumptions c18_right_outcome.
+
+(* the claim that succeeded is the call that returned true: never two; the declared outcome when there is no
+   competing resolver; with one, exactly one of the two calls returned true and the delivered outcome is that call's *)
+Theorem c18_outcome_is_the_winners : forall c s, valid c = true -> reachable c s ->
+  (ret1 s = Some true -> ret2 s = Some true -> False) /\
+  (ret1 s = Some true -> wout c s = out_of (c_k c)) /\
+  (ret2 s = Some true -> exists k2, c_k2 c = Some k2 /\ wout c s = out_of k2) /\
+  (c_k2 c = None -> wout c s = out_of (c_k c) /\ ret2 s = None) /\
+  (c_k2 c <> None -> owner s = false -> (ret1 s = Some true /\ ret2 s <> Some true) \/ (ret2 s = Some true /\ ret1 s <> Some true)).
+Proof. exact winner_facts. Qed.
+Print Assumptions c18_outcome_is_the_winners.
 
 (* the helper block / frame is never released twice, never before the callback returned (the log then ends with
    callback-entered, callback-returned, callback object destroyed, storage dealloc — in this order), and is released
@@ -42,26 +63,27 @@ Print Assumptions c18_right_outcome.
 Theorem c18_released_once : forall c s,
   valid c = true -> reachable c s ->
   frees s <= allocs s /\ allocs s = hb c /\
-  (frees s >= 1 -> atomic_cb c = true -> exists pre t, log s = pre ++ cb_log c t) /\
+  (frees s >= 1 -> atomic_cb c = true -> exists pre t, log s = pre ++ cb_log c (payload s) t) /\
   (terminal s -> frees s = allocs s).
 Proof. exact released_once. Qed.
 Print Assumptions c18_released_once.
 
-(* the complete final state: source ready with the resolver's outcome, completion started exactly once, everything
-   released, outer future resolved once and delivered once (converter adapter) *)
+(* the complete final state: source ready with the winner's outcome, promise consumed, completion started exactly once,
+   everything released, outer future resolved once and delivered once (converter adapter) *)
 Theorem c18_final_state : forall c s,
   valid c = true -> reachable c s -> terminal s -> Final c s.
 Proof. exact terminal_final. Qed.
 Print Assumptions c18_final_state.
 
 (* converter: at the end the outer future holds conv(v) / the converter's exception / the source's exception
-   (await_canceled for a broken promise), resolved once, delivered once; the converter ran once iff there was a value,
+   (await_canceled for a broken promise) / no value when the converter declined, resolved once, delivered once
+   (by the late resolver thread when the converter forwarded the promise); the converter ran once iff there was a value,
    and the log is exactly [converter call; outer delivery] *)
 Theorem c18_conv_value_exception : forall c s,
   valid c = true -> is_conv c = true -> reachable c s -> terminal s ->
-  oslot s = SReady /\ opayload s = expected c /\ nores s = 1 /\ ndeliv s = 1 /\
-  nconv s = b2n (is_val (c_k c)) /\
-  exists t1 t2, log s = conv_log c t1 ++ [(t2, EODeliv (expected c))].
+  oslot s = SReady /\ opayload s = conv_result c (wout c s) /\ nores s = 1 /\ ndeliv s = 1 /\
+  nconv s = b2n (isv (wout c s)) /\
+  exists t1 t2, log s = conv_log c (wout c s) t1 ++ [(t2, EODeliv (conv_result c (wout c s)))].
 Proof. exact conv_final. Qed.
 Print Assumptions c18_conv_value_exception.
 
@@ -69,8 +91,8 @@ Print Assumptions c18_conv_value_exception.
    twice nor on an exception, nothing is delivered before the resolution, a ready outer future holds the expected result *)
 Theorem c18_conv_safe : forall c s,
   valid c = true -> reachable c s ->
-  nores s <= 1 /\ nconv s <= b2n (is_val (c_k c)) /\ ndeliv s <= nores s /\
-  (oslot s = SReady -> opayload s = expected c).
+  nores s <= 1 /\ nconv s <= b2n (isv (payload s)) /\ ndeliv s <= nores s /\
+  (oslot s = SReady -> opayload s = conv_result c (payload s)).
 Proof. exact conv_safe. Qed.
 Print Assumptions c18_conv_safe.
 
@@ -80,17 +102,32 @@ Theorem c18_run_reachable : forall c fuel s sched tr,
 Proof. exact run_sched_reachable. Qed.
 Print Assumptions c18_run_reachable.
 
-(* no livelock: every schedule of every valid configuration reaches a terminal state within 60 steps, so the
-   `terminal` hypotheses above are met by every complete run *)
-Theorem c18_every_schedule_terminates : forall c sched fuel,
-  valid c = true -> 60 <= fuel -> terminal (fst (run_sched c fuel (init c) sched [])).
-Proof. exact every_schedule_terminates. Qed.
-Print Assumptions c18_every_schedule_terminates.
+(* the decidable form of the property that is run on the IMPLEMENTATION's traces accepts every trace of the model, for
+   every op list (valid or malformed), both engines and both value-type variants: the oracle demands nothing that the
+   proved model does not deliver, so a rejection is a behaviour outside every schedule of the model *)
+Theorem c18_oracle_accepts_model : forall seq isvoid ops,
+  adapt_oracle seq isvoid ops (adapt_run seq isvoid ops) = true.
+Proof. exact oracle_accepts_model. Qed.
+Print Assumptions c18_oracle_accepts_model.
 
-(* non-vacuity: future_conv with a throwing converter, resolver thread overtaking the registration between its
-   ready check and its subscription; the final state is terminal and meets the hypotheses *)
+(* non-vacuity: future_conv with a throwing converter into a race of a value against p(drop) on three threads; the
+   competitor wins, the converter is never called, the outer future gets await_canceled *)
 Example c18_nonvacuous :
-  let c := mkCfg AConv 2 false (KVal 5) true 9 in
-  let r := fst (run_sched c 100 (init c) [0;0;0;0;1;1;1;0;1;0;1;1;0]%Z []) in
-  valid c = true /\ all_enabled r = [] /\ opayload r = OExc 9 /\ nconv r = 1 /\ ndeliv r = 1 /\ nores r = 1.
+  let c := mkCfg AConv 2 0 (KVal 5) (Some KDrop) 1 9 in
+  let r := fst (run_sched c 100 (init c) [0;0;0;0;2;2;1;1;2;0;1;2;0;1;2;0;0]%Z []) in
+  valid c = true /\ all_enabled r = [] /\ won r = 2 /\ ret1 r = Some false /\ ret2 r = Some true /\
+  opayload r = OCanc /\ nconv r = 0 /\ ndeliv r = 1 /\ nores r = 1.
+Proof. vm_compute. repeat split. Qed.
+
+(* non-vacuity 2: a promise-passing converter that declines (touches nothing): the outer future still completes,
+   exactly once, as a broken promise; and one that forwards the promise: thread 2 delivers src + d *)
+Example c18_nonvacuous_decline :
+  let c := mkCfg AConv 2 0 (KVal 5) None 3 9 in
+  let r := fst (run_sched c 100 (init c) [0;0;0;0;1;1;1;0;1;0;1;1;0;1;1]%Z []) in
+  valid c = true /\ all_enabled r = [] /\ oslot r = SReady /\ opayload r = ONone /\ nconv r = 1 /\ ndeliv r = 1 /\ nores r = 1.
+Proof. vm_compute. repeat split. Qed.
+Example c18_nonvacuous_forward :
+  let c := mkCfg AConv 2 0 (KVal 5) None 4 9 in
+  let r := fst (run_sched c 100 (init c) [0;0;0;0;1;1;1;0;1;0;1;1;0;1;1;2;2;2]%Z []) in
+  valid c = true /\ all_enabled r = [] /\ oslot r = SReady /\ opayload r = OVal 14 /\ nconv r = 1 /\ ndeliv r = 1 /\ nores r = 1.
 Proof. vm_compute. repeat split. Qed.
